@@ -7,12 +7,17 @@ NOT_APPLICABLE = {}
 
 PROPS = {
     "C01": {
-        "technique": "TLA+ spec (Ops.tla AddExactClause on the integer timeline) + TLC trace validation of recorded p+d executions",
-        "level_text": "Every recorded addition of the real library is judged by TLC against the abstract postcondition of Ops.tla "
+        "technique": "TLA+ implementation-shaped carry chain (Impl.tla) model-checked against the abstract postcondition (Ops.tla) with sensitivity twins; its (point, duration) universe replayed into the library; TLC trace validation of recorded p+d executions",
+        "level_text": "Impl.tla models __add__/_tick_over one carry per action; TLC checks over ~110 000 (mode, point, duration) triples that the "
+                      "chain terminates and refines the abstract postcondition, and rejects three seeded design faults (twins). The same triples are "
+                      "emitted by TLC and executed on the real library. Every recorded addition of the real library is judged by TLC against the abstract postcondition of Ops.tla "
                       "(instant shifted exactly, same representation and offset, all fields valid) under the mode the trace spec tracks; "
                       "systematic day-by-day sweeps over every year type and mode plus seeded random points/durations.",
         "drivers": ["c01"],
-        "mc": [],
+        "mc": [{"module": "MC_C01.tla", "cfg": "MC_C01.cfg"},
+               {"module": "MC_C01.tla", "cfg": "MC_C01_twin1.cfg", "expect_violation": True},
+               {"module": "MC_C01.tla", "cfg": "MC_C01_twin2.cfg", "expect_violation": True, "tier": "thorough"},
+               {"module": "MC_C01.tla", "cfg": "MC_C01_twin3.cfg", "expect_violation": True, "tier": "thorough"}],
         "expect_ops": ["Add"],
         "rule": "one case = one addition p + d / d + p / p - (-d) under one mode spelling; non-trivial = the result's "
                 "date fields differ from the operand's (a day, month, year, leap-day or week-year boundary was crossed)",
